@@ -200,7 +200,7 @@ class SimNet:
             e = self.decider.get_indexed(key, 0, gen or (lambda r: 0))
             if e:
                 self.count("fault.senderr")
-                self.sim.log("net", "senderr", fmt(src), fmt(dst), e)
+                self.sim.log("net", "senderr", fmt(src), fmt(dst), e, data.hex())
                 raise OSError(e, "injected sendmsg failure")
         self.inject(data, src, dst)
         return len(data)
